@@ -406,6 +406,10 @@ def check(repo, rep, tier):
     r_gate(repo, rep)
     r_unary(repo, rep)
     r_no_settings(repo, rep)
+    # "English results do not depend on nb marks" and the seen-rule key rest on the erasure itself: clear_features removes the named
+    # features on every atom, left and right (rule of C13)
+    from .c13 import r_clear
+    r_clear(repo.module(CAT), rep, 'R14.4')
     n_sites = ru.r_client_typestate(repo, rep, [EN, JA, 'depccg/grammar/__init__.py'], R='R14.6')
     from .c06 import shared_sites
     n_sites += shared_sites(repo, rep)
